@@ -101,7 +101,13 @@ def base_traces(versions, for_c19=False):
             # second stream: its region holds the oldest events of the stream (it sorts to the very beginning)
             "loom.n0/proc.100/thread.102": {"meta": meta(102, 100, "n0", req=("nosv",)),
                                             "events": [("OU[", 100, b"", None), ("OHx", 50, i32(-1, 102) + i64(0), None), ("VSh", 60, b"", None),
-                                                       ("VSf", 70, b"", None), ("OU]", 110, b"", None), ("OHe", 141, b"", None),
+                                                       ("VSf", 70, b"", None),
+                                                       # a task type whose label is far longer than anything a tool's line buffer holds
+                                                       ("VYc", 72, b"", u32(9) + b"Z" * 3000 + b"\0"),
+                                                       # ... and labels that end just around the 1024 bytes such a buffer usually has
+                                                       ("VYc", 73, b"", u32(10) + b"Y" * 985 + b"\0"), ("VYc", 74, b"", u32(11) + b"X" * 1000 + b"\0"),
+                                                       ("VYc", 75, b"", u32(12) + b"W" * 1023 + b"\0"), ("VYc", 76, b"", u32(13) + b"V" * 1040 + b"\0"),
+                                                       ("OU]", 110, b"", None), ("OHe", 141, b"", None),
                                                        ("OF[", 144, b"", None), ("OF]", 147, b"", None)]},
         }
     return out
